@@ -135,6 +135,30 @@ def run_case(case, obs=None):
     if case[0] == "race":
         return run_race(case[1], case[2], case[3])
     kind = case[0]
+    if kind == "copied_facade":
+        import copy
+        _, method, via, which = case
+        rig = harness.Rig(via, 0x00)
+        try:
+            plain = rig.facade(blocksize=0)
+            tuned = copy.copy(plain) if which == "copy" else copy.deepcopy(plain) if which == "deepcopy" else type(plain)(rig.dev, 0)
+            tuned.blocksize = 512
+            n0 = len(rig.target.log)
+            args = {"read": (1, 2), "write": (1, 2, bytearray(1024)), "writesame": (1, 2, bytearray(512))}[method.rstrip("0126")]
+            oc = outcome_of(lambda: getattr(plain, method)(*args))
+            sent = len(rig.target.log) - n0
+            bs = plain.blocksize
+        except Exception as e:   # noqa: BLE001 - (a facade that cannot be copied is no violation)
+            rig.close()
+            return []
+        rig.close()
+        where = "%s through a facade without block size, after a %s of it was given block size 512 (%s)" % (method, which, via)
+        v = expect_refusal(oc, ["MissingBlocksizeException"], where, "copied_facade")
+        if sent:
+            v.append(("copied_facade/sent", "%s: %d command(s) reached the device" % (where, sent)))
+        if bs:
+            v.append(("copied_facade/blocksize", "%s: the original facade now reports block size %r" % (where, bs)))
+        return v
     if kind == "none_blocksize":
         # "no block size" spelled None (SCSI(dev, blocksize=None) or s.blocksize = None): every block transfer is refused, nothing sent
         _, method, via, how = case
@@ -495,6 +519,10 @@ def run_partition(part, tier, seed):
                         for pre in itertools.product(PRE_CALLS, repeat=n):
                             do(["blocksize", name, via, point, 0, 0, list(pre)])
     elif kind == "none_blocksize":
+        for method in ("read10", "read16", "write10", "write16", "writesame10", "writesame16"):
+            for via in ("sgio", "iscsi"):
+                for which in ("copy", "deepcopy", "second"):
+                    do(["copied_facade", method, via, which])
         for method in ("read10", "read12", "read16", "write10", "write12", "write16", "writesame10", "writesame16"):
             for via in ("sgio", "iscsi"):
                 for how in ("ctor", "setter"):
